@@ -7,7 +7,14 @@ FKMNonlinearDetector/FKMNonlinearRecorder are compared with the model evaluated 
  (c) exactly, for 2-4 assessment points with proportional integer loads,
  (b) to 1e-12, with the real Binned(ExtendedNeuber) / Binned(SeegerBeste): the law's outputs are recorded per load and the model
      runs with these tables ("evaluated with the same law").
-Relations evaluated on the implementation alone on every run: mirror symmetry, multi-point = single point."""
+Relations evaluated on the implementation alone on every run: mirror symmetry, multi-point = single point.
+
+Strengthening after the seeded changes (see notes/build/C05.md):
+ (c) runs with load_step label layouts that are unique but not ascending (the row order defines the sequence);
+ (e) the history fed in chunks through process(chunk, flush): model HCM/Chunks.v (zcobs / mcobs), single and multi point;
+ (f) batch = single with the real Binned(ExtendedNeuber) law, power-of-two ratios (identical class look-up), loads up to the plastic range;
+ the recorder variant of the tree (first-node / per-point min-max selection, HCM/Select.v) is decided per run by replaying the
+ witnesses of the two findings C05-hcm-minmax-strain-first-node / C05-hysteresis-minmax-first-node."""
 import time
 
 import common
@@ -17,6 +24,12 @@ WHAT_ROWS = 'recorded hysteresis values differ from the independent HCM implemen
 WHAT_RAISE = 'detector / recorder raises on a valid input'
 WHAT_MIRROR = 'negating the loads does not mirror the recorded stresses and strains'
 WHAT_MULTI = 'a point assessed together with others gets values different from its single-point run'
+CLS_FLAGS = 'multi-point collective: flag broadcast fails when the first two rows share a load_step label'
+CLS_LF = 'multi-point: running strain extremes of all points follow the strain ordering of the first point'
+CLS_SWAP = 'multi-point: min/max stress and strain of a closed hysteresis are ordered by the first point'
+KF_LF = {'sequence': [1100, -800], 'ratios': [4, 1], 'law': 'Binned(neuber)', 'relation': 'real-batch', 'point': 1}
+KF_SWAP = {'sequence': [260, -220, 110], 'ratios': [1, 4], 'law': 'Binned(neuber)', 'relation': 'real-batch', 'point': 1}
+RTOL_REAL = 1e-9
 
 MANIFEST = dict(
     text='Theorems (props/C05.v) about a hand-written Gallina model of the complete FKMNonlinearDetector + FKMNonlinearRecorder, generic in '
@@ -26,7 +39,12 @@ MANIFEST = dict(
          'numbers = the C04 load model, every law); mirror / mirror_noLF / mirror_strain_values (odd law: negated loads mirror every row, min/max '
          'swapped; the *_LF columns under the proviso that no processed load equals previous_load, mirror_lf_refuted shows the proviso is needed); '
          'multipoint_is_pointwise (every point of a proportional multi-point run gets the rows of its single-point run, under the stated hypothesis '
-         'that the point orders the compared stresses/strains like point 0); derived_columns (S_a, S_m, eps_a, eps_m, R, Memory-3 overrides); '
+         'that the point orders the compared stresses/strains like point 0; multipoint_first_node_refuted: the hypothesis is needed for the code as it is); '
+         'recorder variants HCM/Select.v (min/max of a closed hysteresis and running strain extremes selected at the first point = the code as it is, '
+         'variant_ff_is_the_code, or for every point separately = the proposed repairs): multipoint_is_pointwise_variants (only what a variant still '
+         'compares at point 0 has to be ordered alike) and multipoint_is_pointwise_repaired (both selections per point: NO hypothesis, the property\'s '
+         'second sentence at full strength); chunked_multipoint_is_pointwise_variants / _repaired: the same for a history fed in chunks through '
+         'process(chunk, flush) (HCM/Chunks.v, simulation theorem chunk-wise); derived_columns (S_a, S_m, eps_a, eps_m, R, Memory-3 overrides); '
          'lf_extremes_bracket_refuted (the running extremes do not bracket the hysteresis strains in general, even for the strictly monotone '
          'injected law). The universally quantified part proved is structural; that the model IS the code (all columns, point by point) is '
          'translation-validation style correspondence on every run, exact for an injected integer law (1-4 points) and to 1e-12 for the real '
@@ -40,8 +58,82 @@ MANIFEST = dict(
 
 
 def register_classes(res):
-    res.classes['multi-point collective: flag broadcast fails when the first two rows share a load_step label'] = \
+    res.classes[CLS_FLAGS] = \
         lambda d: d.get('points', 1) >= 2 and 'could not be broadcast' in str(d.get('error', '')) and d.get('single_point_runs_ok') is True
+    # the two first-node findings: ONLY the running extremes differ, each batch value is 0 or one of the point's own visited strains and
+    # less extreme than the single-point value / ONLY min and max of stress and/or strain of closed rows are exchanged (hcm.explain_batch_diff)
+    res.classes[CLS_LF] = lambda d: d.get('points', 1) >= 2 and d.get('explained') == 'lf' and \
+        set(d.get('differing_columns', ['?'])) <= {'epsilon_min_LF', 'epsilon_max_LF'} and d.get('variant_first_node_lf') is True
+    res.classes[CLS_SWAP] = lambda d: d.get('points', 1) >= 2 and d.get('explained') == 'swap' and \
+        set(d.get('differing_columns', ['?'])) <= hcm.SWAP_GROUP and d.get('variant_first_node_hysteresis') is True
+
+
+def real_batch_check(s, ratios, kind='neuber', out=None):
+    """batch = single for every point, real binned law.  Returns a list of (point, kind or None, columns) for every point whose rows differ:
+    kind in {'lf', 'swap'} when the difference is fully accounted for by that first-node selection (one entry per kind), None otherwise;
+    plus ('strain_values', None, []) when detector.strain_values (point 0) differ."""
+    (per, sv, nf), alone = out if out is not None else (hcm.impl_run_real_batch(s, ratios, kind), [hcm.impl_run_real_alone(s, r, kind) for r in ratios])
+    bad = []
+    for j in range(len(ratios)):
+        d = hcm.rows_diff(per[j], alone[j][0], RTOL_REAL)
+        if d is None:
+            bad.append((j, None, ['number of rows']))
+        elif d:
+            kinds = hcm.explain_batch_diff(per[j], alone[j][0], alone[j][1], d, RTOL_REAL)
+            if not kinds:
+                bad.append((j, None, sorted({k for _, k in d})))
+            for kd in sorted(kinds):
+                grp = hcm.LF_GROUP if kd == 'lf' else hcm.SWAP_GROUP
+                bad.append((j, kd, sorted({k for _, k in d if k in grp})))
+    sE = max([abs(x) for x in alone[0][1]] + [1e-300])
+    if len(sv) != len(alone[0][1]) or nf != alone[0][2] or any(abs(a - b) > RTOL_REAL * sE for a, b in zip(sv, alone[0][1])):
+        bad.append((0, None, ['strain_values']))
+    return bad
+
+
+def detect_variant(res):
+    """Which recorder variant does the tree implement?  Decided by replaying the witnesses of the two findings (entries of
+    known_findings.jsonl if present, else the built-in ones): (pwc, pwl) = (hysteresis corners per point, running extremes per point)."""
+    wl, ws = dict(KF_LF), dict(KF_SWAP)
+    for e in common.known_findings('C05'):
+        if e.get('id') == 'C05-hcm-minmax-strain-first-node':
+            wl = e['witness']
+        if e.get('id') == 'C05-hysteresis-minmax-first-node':
+            ws = e['witness']
+    lf = any(k == 'lf' for _, k, _ in real_batch_check(wl['sequence'], wl['ratios']))
+    sw = any(k == 'swap' for _, k, _ in real_batch_check(ws['sequence'], ws['ratios']))
+    res.cov['recorder_variant'] = 'running extremes: %s; corners of a closed hysteresis: %s' % (
+        'first point decides (finding reproduces)' if lf else 'per point (repaired)', 'first point decides (finding reproduces)' if sw else 'per point (repaired)')
+    return (not sw), (not lf)
+
+
+def gen_chunks(rng):
+    """A load history cut into 2-4 chunks for process(chunk, flush); intermediate flushes are rare, the last chunk is mostly flushed."""
+    while True:
+        s = hcm.random_seq(rng, 16) if rng.random() < 0.8 else hcm.random_seq(rng, 30)
+        if len(s) >= 4:
+            break
+    cuts = sorted(rng.sample(range(1, len(s)), min(rng.randint(1, 3), len(s) - 1)))
+    chunks = [s[a:b] for a, b in zip([0] + cuts, cuts + [len(s)])]
+    flushes = [rng.random() < 0.15 for _ in chunks[:-1]] + [rng.random() < 0.85]
+    return chunks, flushes
+
+
+def gen_real_batch(rng):
+    r = rng.random()
+    if r < 0.35:
+        s = hcm.random_seq(rng, 12)
+    elif r < 0.5:
+        s = nested(rng)
+    else:       # short sequences with a junction between the passes (C04 classes): degenerate / tiny pass-2 hystereses
+        s = hcm.force_junction(rng, hcm.random_seq(rng, 6))
+    m = max(abs(x) for x in s)
+    # ratios are powers of two: c * x and the class limits (k / bins) * (c * max) are exact multiples, the class look-up of every point
+    # alone equals the look-up at the reference point of the batch (class-edge rounding is C07 / C10, not this property)
+    ratios = [rng.choice([0.25, 0.5, 1, 1, 2, 4, 8]) for _ in range(rng.randint(2, 4))]
+    # the most loaded point reaches 300 .. 2500 MPa (elastic up to fully plastic), the others a fraction of it
+    f = max(1, int(rng.uniform(300, 2500) / (m * max(ratios))))
+    return [x * f for x in s], ratios
 
 
 def nested(rng):
@@ -108,11 +200,20 @@ def run(res):
                     'recording proxy harness/hcm.py:RecordingLaw around Binned(ExtendedNeuber|SeegerBeste): the law is taken as the table of values it returned']
     res.assumptions += ['loads are integers (exact on doubles; the code\'s 1e-12 tolerances cannot matter on an integer grid)',
                         'multi-point load histories are proportional with positive ratios (the property\'s quantifier)',
-                        'multi-point = single-point is claimed under the hypothesis of theorem multipoint_is_pointwise (every point orders the '
-                        'compared stresses/strains like point 0); cases outside it are counted, not failed']
+                        'multi-point = single-point with the injected (non-physical) law is claimed under the hypothesis of theorem multipoint_is_pointwise_variants '
+                        'for the recorder variant the tree implements (no hypothesis for the repaired recorder); differences the model variant predicts are counted, '
+                        'not failed; with the real binned law (f) every difference is reported (known findings: first-node selection of the running extremes / of the '
+                        'corners of a closed hysteresis)',
+                        'chunked feeding (e): chunkings inside hcm.chunk_domain (the turning point carried over from the previous call is its last sample and is not '
+                        'directly followed by the flushed last sample of the chunk); outside it the multi-point path of the unchanged detector is not meaningful '
+                        '(notes/build/C05.md, Observations) -- chunking is not part of the property\'s quantifier',
+                        '(f): ratios are powers of two (identical class look-up of the binned law alone and in the batch; class-edge rounding is C07/C10); '
+                        'float noise 1e-9 relative to the largest stress / strain of the run']
     res.cov['rule'] = ('single point: exhaustive {-2..2} up to a length bound + random (length 2..30, alphabets {-k..k}, plateaus, intermediate points, '
                        'forced junction configurations, in and outside the C04 class) + nested envelopes of depth 3..9 with a closing load (Memory 2 after '
-                       'several inner loops); multi point: 2-4 points, integer ratios c_j/c_0 with c_0 in {1,2,3}; real laws: integer loads up to 600 MPa; '
+                       'several inner loops); multi point: 2-4 points, integer ratios c_j/c_0 with c_0 in {1,2,3}, load_step labels ascending / with gaps / offset / '
+                       'shuffled / descending; chunked: random sequences cut into 2-4 chunks, rare intermediate flushes, 1-4 points; real laws: integer loads up to 600 MPa; '
+                       'real-law batches: 2-4 points, ratios 2^k (k = -2..3), most loaded point 300..2500 MPa, half of the sequences with a junction between the passes; '
                        'non-trivial = at least one closed hysteresis in pass 2 and at least one secondary-branch point (counted distinct by input)')
     common.standard_proof_stage(res, 'C05')
 
@@ -127,6 +228,10 @@ def run(res):
         cs = [c0] + [rng.randint(1, 4) for _ in range(rng.randint(1, 3))]
         multi.append(([c0 * x for x in base], c0, cs, base))
     multi.append(([3, -15, -15], 3, [3, 1], [1, -5, -5]))
+    # load_step label layout of every multi-point input: the ROW order defines the sequence, the labels only identify the samples
+    mlay = [hcm.label_layout(rng, len(m[0])) for m in multi]
+    mlay[-1] = ('ascending', list(range(3)))
+    pwc, pwl = detect_variant(res)
     pts = uniq([[c * x for x in base] for _, _, cs, base in multi for c in cs])
     known_single = {tuple(s) for s in seqs}
     seqs += [s for s in pts if tuple(s) not in known_single]
@@ -164,26 +269,27 @@ def run(res):
 
     res.cov.setdefault('timing_s', []).append(round(time.time() - res.t0, 1))
     # ---------------- (c) several points: exact
-    mouts = hcm.pmap(hcm._w_multi, [(s, [c / c0 for c in cs]) for s, c0, cs, _ in multi])
+    mouts = hcm.pmap(hcm._w_multi_labels, [(s, [c / c0 for c in cs], lay[1]) for (s, c0, cs, _), lay in zip(multi, mlay)])
     mterms, mowner, n_order = [], [], 0
     for k, ((s, c0, cs, base), o) in enumerate(zip(multi, mouts)):
         singles_fine = all(single_ok.get(tuple(c * x for x in base), False) for c in cs)
         if o[0] != 'ok':
-            res.violation(WHAT_RAISE, sequence=s, points=len(cs), ratios=[c / c0 for c in cs], error=o[1], single_point_runs_ok=singles_fine)
+            res.violation(WHAT_RAISE, sequence=s, points=len(cs), ratios=[c / c0 for c in cs], labels=mlay[k][1], error=o[1], single_point_runs_ok=singles_fine)
             continue
         per, sv, nf = o[1]
         try:
-            mterms.append(hcm.c05_multi_term(s, c0, cs, per, sv, nf))
+            mterms.append(hcm.c05_multi_term_v(pwc, pwl, s, c0, cs, per, sv, nf))
         except ValueError:
             mterms.append('false')
         mowner.append(k)
-    mbad, mlog = common.coq_compare('C05c', hcm.REQ, mterms, shard=60)
+    mbad, mlog = common.coq_compare('C05c', hcm.REQ_C05, mterms, shard=60)
     mbadset = {mowner[j] for j in mbad}
-    res.oblige('correspondence (c): model = implementation, 2-4 assessment points, all columns of every point on %d runs' % len(mterms),
-               not mbad, 'disagreeing: %s\n%s' % ([multi[mowner[j]][:3] for j in mbad[:4]], mlog[-1000:]))
+    res.oblige('correspondence (c): model (variant pwc=%s pwl=%s) = implementation, 2-4 assessment points, every label layout, all columns of every point on %d runs'
+               % (pwc, pwl, len(mterms)),
+               not mbad, 'disagreeing: %s\n%s' % ([multi[mowner[j]][:3] + (mlay[mowner[j]],) for j in mbad[:4]], mlog[-1000:]))
     for j in mbad[:5]:
         s, c0, cs, _ = multi[mowner[j]]
-        res.violation(WHAT_ROWS, sequence=s, points=len(cs), ratios=[c / c0 for c in cs], law='injected integer law')
+        res.violation(WHAT_ROWS, sequence=s, points=len(cs), ratios=[c / c0 for c in cs], labels=mlay[mowner[j]][1], law='injected integer law')
     # relation on the implementation alone: point j of the batch = its single-point run
     for k, ((s, c0, cs, base), o) in enumerate(zip(multi, mouts)):
         if o[0] != 'ok':
@@ -198,9 +304,11 @@ def run(res):
                 if k not in mbadset and single_ok.get(tuple(sj)):
                     n_order += 1      # predicted by the model: the point orders compared values differently from point 0
                 else:
-                    res.violation(WHAT_MULTI, sequence=s, points=len(cs), ratios=[c / c0 for c in cs], point=j)
+                    res.violation(WHAT_MULTI, sequence=s, points=len(cs), ratios=[c / c0 for c in cs], labels=mlay[k][1], point=j)
     res.add_cases(len(multi), nontrivial=sum(1 for k in range(len(multi)) if mouts[k][0] == 'ok'))
     res.cov['multi_point_runs'] = len(multi)
+    res.cov['multi_point_label_layouts'] = {kd: sum(1 for l in mlay if l[0] == kd) for kd in sorted({l[0] for l in mlay})}
+    res.cov['multi_point_runs_with_labels_not_ascending_in_row_order'] = sum(1 for l in mlay if l[1] != sorted(l[1]))
     res.cov['multi_vs_single_differences_predicted_by_model (order hypothesis of multipoint_is_pointwise not met)'] = n_order
     res.sample({'sequence': multi[0][0], 'ratios': [c / multi[0][1] for c in multi[0][2]]})
 
@@ -258,12 +366,111 @@ def run(res):
         res.sample({'sequence': real[0][0], 'law': real[0][1]})
 
     res.cov.setdefault('timing_s', []).append(round(time.time() - res.t0, 1))
+    # ---------------- (e) the history fed in chunks: process(chunk_1, flush_1) ... process(chunk_k, flush_k); single and multi point, exact
+    ccases, outside = [], {}
+    want = 110 if quick else (1200 if common.NCPU >= 8 else 450)
+    while len(ccases) < want:
+        chunks, flushes = gen_chunks(rng)
+        why = hcm.chunk_domain(chunks, flushes)
+        if why is not None:
+            outside[why] = outside.get(why, 0) + 1
+            continue
+        ccases.append((chunks, flushes, [1] + [rng.randint(1, 4) for _ in range(rng.randint(1, 3))]))
+    cm = hcm.pmap(hcm._w_chunks, [(c, f, [float(r) for r in ra]) for c, f, ra in ccases])
+    skeys = {}
+    for c, f, ra in ccases:
+        for r in set(ra):
+            skeys.setdefault((repr(c), repr(f), r), ([[r * x for x in ch] for ch in c], f))
+    klist = list(skeys)
+    cs_out = dict(zip(klist, hcm.pmap(hcm._w_chunks, [(skeys[k][0], skeys[k][1], None) for k in klist])))
+    sterms, sown = [], []
+    for k in klist:
+        o = cs_out[k]
+        if o[0] != 'ok':
+            res.violation(WHAT_RAISE, chunks=skeys[k][0], flushes=skeys[k][1], points=1, error=o[1])
+            continue
+        try:
+            sterms.append(hcm.c05_chunk_term(skeys[k][0], skeys[k][1], *o[1]))
+        except ValueError:
+            sterms.append('false')
+        sown.append(k)
+    sbad, slog = common.coq_compare('C05e1', hcm.REQ_C05, sterms, shard=150)
+    sbadkeys = {sown[j] for j in sbad}
+    res.oblige('correspondence (e1): model = implementation, history fed in chunks, single point, all columns + strain_values on %d runs' % len(sterms),
+               not sbad, 'disagreeing: %s\n%s' % ([skeys[sown[j]] for j in sbad[:4]], slog[-1000:]))
+    for j in sbad[:5]:
+        res.violation(WHAT_ROWS, chunks=skeys[sown[j]][0], flushes=skeys[sown[j]][1], points=1, law='injected integer law')
+    cterms, cown = [], []
+    for k, ((c, f, ra), o) in enumerate(zip(ccases, cm)):
+        if o[0] != 'ok':
+            res.violation(WHAT_RAISE, chunks=c, flushes=f, points=len(ra), ratios=ra, error=o[1],
+                          single_point_runs_ok=all(cs_out[(repr(c), repr(f), r)][0] == 'ok' for r in ra))
+            continue
+        try:
+            cterms.append(hcm.c05_chunk_multi_term(pwc, pwl, c, f, ra, *o[1]))
+        except ValueError:
+            cterms.append('false')
+        cown.append(k)
+    cbad, clog = common.coq_compare('C05e2', hcm.REQ_C05, cterms, shard=60)
+    cbadset = {cown[j] for j in cbad}
+    res.oblige('correspondence (e2): model (variant pwc=%s pwl=%s) = implementation, history fed in chunks, 2-4 assessment points on %d runs' % (pwc, pwl, len(cterms)),
+               not cbad, 'disagreeing: %s\n%s' % ([ccases[cown[j]] for j in cbad[:4]], clog[-1000:]))
+    for j in cbad[:5]:
+        c, f, ra = ccases[cown[j]]
+        res.violation(WHAT_ROWS, chunks=c, flushes=f, points=len(ra), ratios=ra, law='injected integer law')
+    n_corder = 0
+    for k, ((c, f, ra), o) in enumerate(zip(ccases, cm)):
+        if o[0] != 'ok':
+            continue
+        for j, r in enumerate(ra):
+            key = (repr(c), repr(f), r)
+            oj = cs_out[key]
+            if oj[0] != 'ok':
+                continue
+            if o[1][0][j] != oj[1][0] or (j == 0 and (o[1][1] != oj[1][1] or o[1][2] != oj[1][2])):
+                if k not in cbadset and key not in sbadkeys and o[1][1] == cs_out[(repr(c), repr(f), ra[0])][1][1] and o[1][2] == cs_out[(repr(c), repr(f), ra[0])][1][2]:
+                    n_corder += 1     # predicted by the model variant of the tree (first-node selection)
+                else:
+                    res.violation(WHAT_MULTI, chunks=c, flushes=f, points=len(ra), ratios=ra, point=j)
+    res.add_cases(len(ccases) + len(klist), nontrivial=sum(1 for c, f, ra in ccases if len(c) >= 2))
+    res.cov['chunked_runs'] = {'multi_point': len(ccases), 'single_point': len(klist),
+                               'generated_outside_the_domain_of_the_chunk_relation': outside,
+                               'multi_vs_single_differences_predicted_by_model': n_corder}
+    res.sample({'chunks': ccases[0][0], 'flushes': ccases[0][1], 'ratios': ccases[0][2]})
+
+    res.cov.setdefault('timing_s', []).append(round(time.time() - res.t0, 1))
+    # ---------------- (f) batch = single with the real binned law (implementation alone): every column of every point, strain_values
+    rb = []
+    for _ in range(110 if quick else (1000 if common.NCPU >= 8 else 400)):
+        s, ratios = gen_real_batch(rng)
+        if max(abs(x) for x in s) * max(ratios) <= 3000 and len(set(s)) >= 2:
+            rb.append((s, ratios, 'neuber'))
+    n_rb_exc, n_rb_diff = 0, {'lf': 0, 'swap': 0, 'other': 0}
+    vflags = dict(variant_first_node_lf=not pwl, variant_first_node_hysteresis=not pwc)
+    for (s, ratios, kind), o in zip(rb, hcm.pmap(hcm._w_real_batch, rb, chunksize=2)):
+        if o[0] != 'ok':
+            n_rb_exc += 1
+            res.notes.append('real law batch run raised on %s %s: %s' % (s, ratios, o[1][:200])) if n_rb_exc <= 3 else None
+            continue
+        for j, kd, cols in real_batch_check(s, ratios, kind, o[1]):
+            n_rb_diff[kd or 'other'] += 1
+            res.violation(WHAT_MULTI, sequence=s, points=len(ratios), ratios=ratios, point=j, law='Binned(%s)' % kind, relation='real-batch',
+                          explained=kd, differing_columns=cols, **vflags)
+    res.add_cases(len(rb), nontrivial=len(rb) - n_rb_exc)
+    res.cov['real_law_batch_runs'] = {'runs': len(rb), 'rejected_by_the_law': n_rb_exc, 'points_differing_from_their_single_run': n_rb_diff}
+    if rb:
+        res.sample({'sequence': rb[0][0], 'ratios': rb[0][1], 'law': 'Binned(neuber)', 'relation': 'batch = single'})
+
+    res.cov.setdefault('timing_s', []).append(round(time.time() - res.t0, 1))
     # ---------------- E: known findings
     res.replay_known(still_fails)
 
 
 def still_fails(e):
     w = e['witness']
+    if w.get('relation') == 'real-batch':
+        kd = 'lf' if e.get('class') == CLS_LF else 'swap'
+        return any(k == kd for _, k, _ in real_batch_check(w['sequence'], w['ratios']))
     try:
         hcm.impl_run_multi(w['sequence'], w['ratios'])
     except Exception as ex:
@@ -298,20 +505,49 @@ def shrink_single(s):
 def replay(res, rp):
     register_classes(res)
     v = rp.get('violation', {})
-    if 'sequence' not in v:
+    if 'sequence' not in v and 'chunks' not in v:
         run(res)
         return res.finish()
-    s = [int(x) for x in v['sequence']]
+    s = [int(x) for x in v['sequence']] if 'sequence' in v else v['chunks']
     what, why = v.get('what'), None
     try:
-        if v.get('points', 1) >= 2:
+        if 'chunks' in v:
+            chunks, flushes = [[int(x) for x in ch] for ch in v['chunks']], [bool(x) for x in v['flushes']]
+            if v.get('points', 1) >= 2:
+                pwc, pwl = detect_variant(res)
+                ra = [int(r) for r in v['ratios']]
+                per, sv, nf = hcm.impl_run_chunks(chunks, flushes, [float(r) for r in ra])
+                bad, _ = common.coq_compare('C05replay', hcm.REQ_C05, [hcm.c05_chunk_multi_term(pwc, pwl, chunks, flushes, ra, per, sv, nf)])
+                why = 'multi-point rows of the chunked run differ from the model' if bad else None
+                for j, r in enumerate(ra):
+                    rows, sv1, nf1 = hcm.impl_run_chunks([[r * x for x in ch] for ch in chunks], flushes)
+                    b1, _ = common.coq_compare('C05replay', hcm.REQ_C05, [hcm.c05_chunk_term([[r * x for x in ch] for ch in chunks], flushes, rows, sv1, nf1)])
+                    if b1:
+                        why = 'rows of the chunked single-point run differ from the model'
+                    elif bad and rows != per[j]:
+                        why = 'point %d of the chunked multi-point run differs from its single-point run (and from the model)' % j
+            else:
+                rows, sv, nf = hcm.impl_run_chunks(chunks, flushes)
+                bad, _ = common.coq_compare('C05replay', hcm.REQ_C05, [hcm.c05_chunk_term(chunks, flushes, rows, sv, nf)])
+                why = 'rows of the chunked run differ from the model' if bad else None
+        elif v.get('relation') == 'real-batch':
+            pwc, pwl = detect_variant(res)
+            bad = real_batch_check(s, v['ratios'])
+            if bad:
+                j, kd, cols = bad[0]
+                why = 'point %d differs from its single-point run in %s' % (j, cols)
+                v = dict(v, point=j, explained=kd, differing_columns=cols, variant_first_node_lf=not pwl, variant_first_node_hysteresis=not pwc)
+                for j2, kd2, cols2 in bad[1:]:
+                    res.violation(WHAT_MULTI, **dict({k: v[k] for k in v if k != 'what'}, point=j2, explained=kd2, differing_columns=cols2))
+        elif v.get('points', 1) >= 2:
             ratios = v['ratios']
-            per, sv, nf = hcm.impl_run_multi(s, ratios)
+            pwc, pwl = detect_variant(res)
+            per, sv, nf = hcm.impl_run_multi_labels(s, ratios, v.get('labels') or list(range(len(s))))
             c0 = 1
             while any(abs(r * c0 - round(r * c0)) > 1e-9 for r in ratios):
                 c0 += 1
             cs = [int(round(r * c0)) for r in ratios]
-            bad, _ = common.coq_compare('C05replay', hcm.REQ, [hcm.c05_multi_term(s, c0, cs, per, sv, nf)])
+            bad, _ = common.coq_compare('C05replay', hcm.REQ_C05, [hcm.c05_multi_term_v(pwc, pwl, s, c0, cs, per, sv, nf)])
             why = 'multi-point rows differ from the model' if bad else None
         elif what == WHAT_MIRROR:
             if str(v.get('law', '')).startswith('Binned'):
